@@ -31,6 +31,9 @@ def impl_tdc(scores, labels, desc, entry):
 
     if entry == "tdc":
         return Q.tdc(scores, labels, desc=desc)
+    if entry == "tdc-default-direction":       # documented default: higher scores are better
+        assert desc
+        return Q.tdc(scores, labels)
     if entry == "qvalues_from_scores":
         assert desc
         return Q.qvalues_from_scores(scores, labels, "tdc")
@@ -42,6 +45,9 @@ def impl_labels(scores, targets, thr, desc, entry):
 
     if entry == "_update_labels":
         return D._update_labels(scores, targets, thr, desc)
+    if entry == "_update_labels-default-direction":
+        assert desc
+        return D._update_labels(scores, targets, thr)
     if entry == "_update_labels-series":      # feature columns arrive as pandas Series
         return D._update_labels(pd.Series(np.asarray(scores, dtype=float)), pd.Series(np.asarray(targets, dtype=bool)),
                                 thr, desc)
@@ -253,8 +259,12 @@ def from_json(d):
 def decorate(rng, c):
     c["thr"] = Fraction(rng.choice([0.01, 0.05, 0.1, 0.25, 0.5, 0.75, 1.0, 0.3]))
     c["entry"] = "qvalues_from_scores" if (c["desc"] and rng.random() < 0.3) else "tdc"
+    if c["desc"] and c["entry"] == "tdc" and rng.random() < 0.25:
+        c["entry"] = "tdc-default-direction"
     c["lentry"] = rng.choice(["_update_labels", "LinearPsmDataset", "_update_labels-series", "LinearPsmDataset-column"])
-    if c["lentry"] == "_update_labels" and c["sdtype"] not in ("float64",):
+    if c["lentry"] == "_update_labels" and c["desc"] and rng.random() < 0.3:
+        c["lentry"] = "_update_labels-default-direction"
+    if c["lentry"].startswith("_update_labels") and c["lentry"] != "_update_labels-series" and c["sdtype"] not in ("float64",):
         # typeguard on `_update_labels` wants float arrays; integer/float32 score dtypes go through tdc only
         pass
     return c
